@@ -332,6 +332,7 @@ func commaLed(p *parser, t *token, left *token) *token {
 }
 
 func getType(p *parser) *token {
+	p.descend()
 	t := p.Token
 	p.Next()
 	switch t.Symbol {
@@ -400,6 +401,7 @@ func getType(p *parser) *token {
 	default:
 		panicf("type: unexpected symbol: %v", t.Symbol)
 	}
+	p.nest--
 	return t
 }
 
